@@ -37,6 +37,7 @@ def shards(tier, seed):
         for k in range(1 if tier == "quick" else 4):
             out.append({"kind": "store_api", "cfg": cfg, "part": k, "n": 20 if tier == "quick" else 80})
     out.append({"kind": "registration"})
+    out.append({"kind": "misc", "n": 25 if tier == "quick" else 150})
     for cfg in ("memory", "file"):
         out.append({"kind": "remote_store", "cfg": cfg, "n": 30 if tier == "quick" else 120})
     return out
@@ -705,13 +706,92 @@ def part_registration(cx):
     cx.out["samples"].append({"part": "registration", "histories": n})
 
 
+def part_misc(cx):
+    """remaining endpoints: upload (== store), commands.json (== registry), build (== encode), debug-json (== metadata)"""
+    import io
+    from liquer.store import set_store, MemoryStore
+    from liquer.commands import command_registry
+    from liquer.parser import encode
+    from liquer.context import Context
+    from liquer.cache import set_cache, NoCache
+    from lqv import vocab
+    from lqv.gen.query import QGen
+
+    vocab.register_all()
+    set_cache(NoCache())
+    spec = cx.spec
+    rnd = random.Random("%s/C20m" % spec["seed"])
+    client = make_app().test_client()
+    served, twin = MemoryStore(), MemoryStore()
+    set_store(served)
+    # commands.json
+    cx.out["evaluations"] += 1
+    cx.count("misc.commands")
+    got = client.get("/liquer/api/commands.json").get_json(silent=True)
+    want = json.loads(json.dumps(command_registry().as_dict(), default=str))
+    if got is None or set(got.keys()) != set(want.keys()) or any(set(got[n]) != set(want[n]) for n in want):
+        cx.viol("commands.json differs from the registry", "namespaces %r vs %r" % (sorted(got or {}), sorted(want)), {"kind": "misc"})
+    g = QGen(rnd, allow_fail=True, max_len=3)
+    g.avoid_none_default = True
+    for i in range(spec["n"]):
+        # upload
+        k = rnd.choice(STORE_KEYS)
+        data = ("upload-%d" % i).encode() * rnd.choice([1, 50])
+        cx.out["evaluations"] += 1
+        cx.count("misc.upload")
+        cx.out["nontrivial"].add("m|upload|%d" % i)
+        r = client.post("/liquer/api/store/upload/" + quote(k), data={"file": (io.BytesIO(data), "f.bin")}, content_type="multipart/form-data")
+        try:
+            try:
+                md = twin.get_metadata(k)
+            except Exception:
+                md = {}
+            twin.store(k, data, md)
+            ok = True
+        except Exception:
+            ok = False
+        if ((r.get_json(silent=True) or {}).get("status") == "OK") != ok:
+            cx.viol("store.upload result differs", "key %r: library ok=%r service %r" % (k, ok, r.get_json(silent=True)), {"kind": "misc"})
+        a, b = store_view(served), store_view(twin)
+        if a != b:
+            diff = [x for x in a if a[x] != b.get(x)]
+            cx.viol("store.upload effect differs from the library", "key %r: %r" % (k, diff[:3]), {"kind": "misc"})
+            served, twin = MemoryStore(), MemoryStore()
+            set_store(served)
+        # build
+        ql = [[rnd.choice(["a", "cmd", "x_1"])] + [rnd.choice(["p", "a-b", "x/y", "~", "é €", ""]) for _ in range(rnd.randint(0, 3))] for _ in range(rnd.randint(1, 3))]
+        cx.out["evaluations"] += 1
+        cx.count("misc.build")
+        r = client.post("/liquer/api/build", data=json.dumps({"ql": ql}), content_type="application/json")
+        if (r.get_json(silent=True) or {}).get("query") != encode(ql):
+            cx.viol("build differs from encode", "ql %r: service %r library %r" % (ql, (r.get_json(silent=True) or {}).get("query"), encode(ql)), {"kind": "misc"})
+        # debug-json
+        q = g.query(0)
+        cx.out["evaluations"] += 1
+        cx.count("misc.debug_json")
+        try:
+            st = Context().evaluate(q)
+            want = (st.metadata.get("query"), st.metadata.get("status"), bool(st.is_error), st.metadata.get("type_identifier"))
+        except Exception:
+            want = None
+        try:
+            r = client.get("/liquer/api/debug-json/" + quote(q))
+            gj = r.get_json(silent=True) if 200 <= r.status_code < 300 else None
+        except Exception:
+            gj = None
+        if want is not None:
+            have = None if gj is None else (gj.get("query"), gj.get("status"), bool(gj.get("is_error")), gj.get("type_identifier"))
+            if have != want:
+                cx.viol("debug-json differs from the evaluation's metadata", "query %r: service %r library %r" % (q, have, want), {"kind": "misc"})
+
+
 def run_shard(spec):
     cx = Ctx(spec)
     kind = spec.get("kind")
     if "replay" in spec:
         kind = spec["replay"].get("kind")
     {"queries": part_queries, "cache_api": part_cache, "store_api": part_store, "registration": part_registration,
-     "remote_store": part_remote_store}[kind](cx)
+     "remote_store": part_remote_store, "misc": part_misc}[kind](cx)
     out = cx.out
     if not out["samples"]:
         out["samples"].append({"part": kind, "requests": out["evaluations"]})
@@ -728,7 +808,7 @@ def finalize(m, tier, seed):
     inc = []
     for k in ("queries", "failing_queries", "with_extension", "with_url_arguments", "with_json_body", "cache.post_meta", "cache.remove",
               "store.post_data", "store.removedir", "store.keys", "registration.GET", "registration.POST", "remote.store",
-              "remote.contains"):
+              "remote.contains", "misc.upload", "misc.build", "misc.debug_json", "misc.commands"):
         if not m["counters"].get(k):
             inc.append("coverage class %s empty" % k)
     return {"inconclusive": inc}
